@@ -291,7 +291,8 @@ type synthOpts struct {
 	presetTT  []byte
 	presetPtr int
 	presetB   []byte
-	plain     bool // complete tables only, no extras
+	plain     bool  // complete tables only, no extras
+	kraft     []int // per tree: 0 complete, 1 Kraft sum 1/2, 2 sum 1/4, 3 sum 3/4
 }
 
 func synthOptsRandom(rng *rand.Rand) synthOpts {
@@ -477,11 +478,32 @@ func synthBlock(w *BitW, rng *rand.Rand, o synthOpts, inject int, info *synthInf
 
 	// tables
 	nGroups := 2 + rng.Intn(5)
+	if o.kraft != nil {
+		nGroups = len(o.kraft)
+	}
 	tabs := make([]*ctable, nGroups)
 	for g := range tabs {
 		lens, _ := genLens(rng, alpha)
 		if o.plain || g == 0 && rng.Intn(4) != 0 { // keep one table that can encode everything
 			lens = RandLens(rng, alpha, alpha, 20)
+		}
+		if o.kraft != nil {
+			// every symbol keeps a code; the tree is under-subscribed by a chosen amount
+			switch o.kraft[g] {
+			case 0:
+				lens = RandLens(rng, alpha, alpha, 17)
+			case 1, 2:
+				lens = RandLens(rng, alpha, alpha, 17)
+				for i := range lens {
+					lens[i] += o.kraft[g]
+				}
+			case 3:
+				rest := RandLens(rng, alpha-1, alpha-1, 16)
+				lens = append([]int{1}, rest...)
+				for i := 1; i < len(lens); i++ {
+					lens[i] += 2
+				}
+			}
 		}
 		tabs[g] = mkCTable(lens)
 	}
